@@ -145,6 +145,59 @@ def check_enum(run, F, enum_path, spec, reg_all):
     return adt, discr
 
 
+def check_status_semantics(run, F, reg, count_inputs=None):
+    """status decoding (decode-or-unknown, total over 65536) and the success classification."""
+    exhaustive_inputs = 0
+    # ---- status_code: decode or unknown ------------------------------------------------
+    sc = F.body("ipp::IppHeader::status_code")
+    spec = reg["ipp::model::StatusCode"]
+    unknown_path = "ipp::model::StatusCode::" + spec["unknown_symbol"]["name"]
+    if sc is None:
+        run.anchor_lost("R-STATUS", "ipp::IppHeader::status_code")
+    else:
+        e = unwrap(sc["body"])
+        ok, why = status_code_shape(e, unknown_path)
+        run.ob("R-STATUS", "status_code = from_u16(operation_or_status) or-else Unknown", ok, why, site(sc, e))
+        if ok and "ipp::model::StatusCode" in F.adts:
+            # totality over all 65536 values on the extracted table
+            t = decode_table(run, F, "ipp::model::StatusCode", "from_u64")
+            if t is not None:
+                cast_ty, table, _ = t
+                discr = {v["path"]: v["discr"] for v in F.adts["ipp::model::StatusCode"]["variants"]}
+                core_by_num = {v: k for k, v in spec["core"].items()}
+                bad = []
+                for n in range(65536):
+                    got = table.get(wrap_int(n, cast_ty), unknown_path)
+                    if n in core_by_num:
+                        if discr.get(got) != n or got == unknown_path:
+                            bad.append((n, got))
+                    else:
+                        if got != unknown_path and discr.get(got) != n:
+                            bad.append((n, got))
+                exhaustive_inputs += 65536
+                run.ob("R-STATUS", "status decoding total over 65536 codes", not bad,
+                       "status %s decodes to %s" % (bad[0] if bad else ("", "")), site(sc))
+    # ---- is_success ---------------------------------------------------------------------
+    isb = F.body("ipp::model::StatusCode::is_success")
+    if isb is None:
+        run.anchor_lost("R-SUCCESS", "ipp::model::StatusCode::is_success")
+    elif "ipp::model::StatusCode" in F.adts:
+        all_variants = [v["path"] for v in F.adts["ipp::model::StatusCode"]["variants"]]
+        tset, why = true_set_eval(unwrap(isb["body"]), {v["path"]: v["discr"] for v in F.adts["ipp::model::StatusCode"]["variants"]})
+        if tset is None:
+            run.ob("R-SUCCESS", "is_success shape", False, why, site(isb))
+        else:
+            discr = {v["path"]: v["discr"] for v in F.adts["ipp::model::StatusCode"]["variants"]}
+            nums = sorted(discr[p] for p in tset)
+            run.ob("R-SUCCESS", "success set contains RFC 8011 successful codes", set(spec["successful"]) <= set(nums),
+                   "is_success is true for %s, which misses some of %s" % (nums, spec["successful"]), site(isb))
+            out = [n for n in nums if n > spec["success_class_max"]]
+            run.ob("R-SUCCESS", "success set within 0x0000-0x00ff", not out,
+                   "is_success is true for codes outside the successful class: %s" % [hex(x) for x in out], site(isb))
+            run.ob("R-SUCCESS", "unknown is not success", unknown_path not in tset, "the fallback symbol is reported as success", site(isb))
+    return exhaustive_inputs
+
+
 def check(run, views, tier):
     run.explanation = (
         "Finite-domain proof on tables extracted from the type-checked program: (1) every enum discriminant, as "
@@ -213,53 +266,15 @@ def check(run, views, tier):
                    "signed and unsigned decode tables differ")
         run.floor("R-DISCR", n_variants, 150, "enum variants compared with the registry")
 
-        # ---- status_code: decode or unknown ------------------------------------------------
-        sc = F.body("ipp::IppHeader::status_code")
-        spec = reg["ipp::model::StatusCode"]
-        unknown_path = "ipp::model::StatusCode::" + spec["unknown_symbol"]["name"]
-        if sc is None:
-            run.anchor_lost("R-STATUS", "ipp::IppHeader::status_code")
-        else:
-            e = unwrap(sc["body"])
-            ok, why = status_code_shape(e, unknown_path)
-            run.ob("R-STATUS", "status_code = from_u16(operation_or_status) or-else Unknown", ok, why, site(sc, e))
-            if ok and "ipp::model::StatusCode" in F.adts:
-                # totality over all 65536 values on the extracted table
-                t = decode_table(run, F, "ipp::model::StatusCode", "from_u64")
-                if t is not None:
-                    cast_ty, table, _ = t
-                    discr = {v["path"]: v["discr"] for v in F.adts["ipp::model::StatusCode"]["variants"]}
-                    core_by_num = {v: k for k, v in spec["core"].items()}
-                    bad = []
-                    for n in range(65536):
-                        got = table.get(wrap_int(n, cast_ty), unknown_path)
-                        if n in core_by_num:
-                            if discr.get(got) != n or got == unknown_path:
-                                bad.append((n, got))
-                        else:
-                            if got != unknown_path and discr.get(got) != n:
-                                bad.append((n, got))
-                    exhaustive_inputs += 65536
-                    run.ob("R-STATUS", "status decoding total over 65536 codes", not bad,
-                           "status %s decodes to %s" % (bad[0] if bad else ("", "")), site(sc))
-        # ---- is_success ---------------------------------------------------------------------
-        isb = F.body("ipp::model::StatusCode::is_success")
-        if isb is None:
-            run.anchor_lost("R-SUCCESS", "ipp::model::StatusCode::is_success")
-        elif "ipp::model::StatusCode" in F.adts:
-            all_variants = [v["path"] for v in F.adts["ipp::model::StatusCode"]["variants"]]
-            tset, why = true_set_eval(unwrap(isb["body"]), {v["path"]: v["discr"] for v in F.adts["ipp::model::StatusCode"]["variants"]})
-            if tset is None:
-                run.ob("R-SUCCESS", "is_success shape", False, why, site(isb))
-            else:
-                discr = {v["path"]: v["discr"] for v in F.adts["ipp::model::StatusCode"]["variants"]}
-                nums = sorted(discr[p] for p in tset)
-                run.ob("R-SUCCESS", "success set contains RFC 8011 successful codes", set(spec["successful"]) <= set(nums),
-                       "is_success is true for %s, which misses some of %s" % (nums, spec["successful"]), site(isb))
-                out = [n for n in nums if n > spec["success_class_max"]]
-                run.ob("R-SUCCESS", "success set within 0x0000-0x00ff", not out,
-                       "is_success is true for codes outside the successful class: %s" % [hex(x) for x in out], site(isb))
-                run.ob("R-SUCCESS", "unknown is not success", unknown_path not in tset, "the fallback symbol is reported as success", site(isb))
+        exhaustive_inputs += check_status_semantics(run, F, reg)
+    # "the numeric codes the library emits and recognises": every value is announced with the tag of its own kind and every
+    # registered tag is recognised as the kind that emits it (R-TAGMAP, R-TAGBODY of the codec rules)
+    from .. import codecrules as cr
+    TL = cr.layout_table()
+    for cfg, crates in views.items():
+        run.cfg = cfg
+        cr.r_tagmap(run, crates["ipp"], TL, check_registry=True)
+        cr.r_tagbody_bracket(run, crates["ipp"], TL)
     run.meta.setdefault("coverage_extra", {})["exhaustive"] = True
     run.meta["coverage_extra"]["inputs_enumerated"] = exhaustive_inputs
 
